@@ -60,8 +60,17 @@ class EnvProblem(Problem):
         self.calls = 0
         self.log = []
         self.attempts = []   # every y asked, including failed ones
+        self.local_fn = None     # objective used while the harness runs a local refinement (does not consume answers)
+        self.in_local = False
+        self.local_log = []
 
     def Calculate(self, point, functionValue):
+        if self.in_local:
+            y = np.array(point.floatVariables, dtype=np.double, copy=True)
+            v = self.local_fn(y)
+            self.local_log.append((y, v))
+            functionValue.value = v
+            return functionValue
         self.calls += 1
         y = np.array(point.floatVariables, dtype=np.double, copy=True)
         self.attempts.append(y)
@@ -172,6 +181,17 @@ class SolverRun:
             try:
                 self.solver.DoGlobalIteration(n)
             finally:
+                self.out += buf.getvalue()
+
+    def refine(self, n, local_fn):
+        """DoLocalRefinement(n) with the objective answered by local_fn(y) (local evaluations are logged apart)"""
+        p = self.problem
+        p.local_fn, p.in_local = local_fn, True
+        with quiet() as buf:
+            try:
+                self.solver.DoLocalRefinement(n)
+            finally:
+                p.in_local = False
                 self.out += buf.getvalue()
 
     def solve(self):
